@@ -50,6 +50,8 @@ pub trait ByteWriter {
     fn write_u32(&mut self, v: u32) ensures final(self).bytes() == old(self).bytes() + le_bytes(v as int, 4);
     fn write_u64(&mut self, v: u64) ensures final(self).bytes() == old(self).bytes() + le_bytes(v as int, 8);
     fn write_many<S: Enc>(&mut self, elements: &Vec<S>) ensures final(self).bytes() == old(self).bytes() + enc_many(elements@);
+    /// R8k stand-in for `elements.iter().for_each(|&v| <write v>)`: writes every element in order
+    fn write_slice<S: Enc>(&mut self, elements: &[S]) ensures final(self).bytes() == old(self).bytes() + enc_many(elements@);
 }
 pub trait ByteReader {
     spec fn rest(&self) -> Seq<u8>;
@@ -86,6 +88,15 @@ pub broadcast proof fn lemma_le_len(v: int, n: int)
     ensures #[trigger] le_bytes(v, n).len() == n
     decreases n
 { if n > 0 { lemma_le_len(v / 256, n - 1); } }
+/// a 4-element list is the concatenation of its four encodings (words)
+pub broadcast proof fn lemma_enc_many_4<S: Enc>(s: Seq<S>)
+    requires s.len() == 4
+    ensures #[trigger] enc_many(s) =~= s[0].enc() + s[1].enc() + s[2].enc() + s[3].enc()
+{
+    reveal_with_fuel(enc_many, 5);
+    assert(s.skip(1)[0] == s[1] && s.skip(1).skip(1)[0] == s[2] && s.skip(1).skip(1).skip(1)[0] == s[3]);
+    assert(s.skip(1).skip(1).skip(1).skip(1).len() == 0);
+}
 /// `pre` followed by `tail` (trigger for the round-trip statements)
 pub open spec fn with_tail(pre: Seq<u8>, tail: Seq<u8>) -> Seq<u8> { pre + tail }
 pub proof fn lemma_enc_felt(x: Felt)
@@ -140,6 +151,22 @@ pub proof fn lemma_le_roundtrip(v: int, n: int)
         let b = le_bytes(v, n);
         assert(b.skip(1) =~= le_bytes(v / 256, n - 1));
         assert(b[0] as int == v % 256);
+    }
+}
+/// ... and on every byte string: re-encoding the value read gives the bytes back
+pub broadcast proof fn lemma_le_val_inv(s: Seq<u8>)
+    ensures 0 <= #[trigger] le_val(s) < p256(s.len() as int), le_bytes(le_val(s), s.len() as int) == s
+    decreases s.len()
+{
+    if s.len() > 0 {
+        lemma_le_val_inv(s.skip(1));
+        let v = le_val(s);
+        let t = le_val(s.skip(1));
+        assert(v == s[0] as int + 256 * t);
+        assert(v % 256 == s[0] as int && v / 256 == t) by (nonlinear_arith) requires v == s[0] as int + 256 * t, 0 <= (s[0] as int), (s[0] as int) < 256, 0 <= t;
+        assert(le_bytes(v, s.len() as int) =~= s);
+    } else {
+        assert(le_bytes(0, 0) =~= s);
     }
 }
 pub proof fn lemma_p256_consts()
